@@ -6,7 +6,7 @@ from . import kernel
 
 
 class Outcome(object):
-    __slots__ = ("desc", "kind", "value", "exc", "t0", "t1", "steps")
+    __slots__ = ("desc", "kind", "value", "exc", "t0", "t1", "steps", "post")
 
     def __init__(self, desc):
         self.desc = desc
@@ -15,6 +15,7 @@ class Outcome(object):
         self.exc = None
         self.t0 = self.t1 = None
         self.steps = 0
+        self.post = None
 
     def sig(self):
         """Comparable summary of an operation's result."""
@@ -71,12 +72,14 @@ class Endpoint(object):
             out.kind = "exc"
             out.exc = e
             out.t1 = self.sim.tick()
+            out.post = self._post()
             self.cur = None
             return out
         if gen is None or not hasattr(gen, "__next__"):
             out.kind = "ok"
             out.value = gen
             out.t1 = self.sim.tick()
+            out.post = self._post()
             self.cur = None
             return out
         self.op = gen
@@ -118,9 +121,15 @@ class Endpoint(object):
 
     def _finish(self):
         self.cur.t1 = self.sim.tick()
+        self.cur.post = self._post()
         self.op = None
         self.cur = None
         self.blocked = None
+
+    def _post(self):
+        c = self.conn
+        return (c.closed, None if c.session is None
+                else bool(c.session.resumable))
 
     def cancel(self):
         """Abandon the active operation (generator .close())."""
